@@ -84,10 +84,27 @@ class TRun:
                     io_alive=roles.get("_handle_connections", 0) == 1)
 
 
-def slot_scenario(seed, thorough):
-    """random history for the slot model; returns (limit, [(event, obs)])"""
+# directed histories (run before the random ones): (thread limit, steps); a step is a kind, or ("arrive", outcome)
+SLOT_CORPUS = [
+    # every slot busy, one more request waits for a slot, its peer goes away, the 5 s wait expires (TOO_BUSY cannot be routed)
+    (1, [("arrive", "slow:answer"), ("arrive", "answer"), "close", "tick", "release", "connect", ("arrive", "answer"), ("arrive", "answer")]),
+    (2, [("arrive", "slow:none"), ("arrive", "slow:raise"), ("arrive", "answer"), "close", "tick", "tick", "release", "release",
+         "connect", ("arrive", "answer")]),
+    # handlers that answer nothing, up to the limit and beyond
+    (1, [("arrive", "none"), ("arrive", "none"), ("arrive", "answer"), "tick", ("arrive", "answer")]),
+    (2, [("arrive", "none"), ("arrive", "raise"), ("arrive", "none"), ("arrive", "answer"), ("arrive", "answer")]),
+    # answers become unroutable while the handlers still run
+    (2, [("arrive", "slow:answer"), ("arrive", "slow:answer"), "close", "release", "release", "connect", ("arrive", "answer"),
+         ("arrive", "answer"), ("arrive", "answer")]),
+    (0, [("arrive", "slow:answer"), "close", "release", "connect", ("arrive", "raise"), ("arrive", "answer")]),
+]
+
+
+def slot_scenario(seed, thorough, script=None, limit=None):
+    """random (or scripted) history for the slot model; returns (limit, [(event, obs)])"""
     rng = random.Random(seed)
-    limit = rng.choice([0, 1, 1, 2, 3])
+    if limit is None:
+        limit = rng.choice([0, 1, 1, 2, 3])
     t = TRun(seed, limit)
     out = []
     try:
@@ -96,19 +113,25 @@ def slot_scenario(seed, thorough):
         conns[cid] = True
         hbh = 100
         slow = []
-        for _ in range(rng.randrange(6, 14 if not thorough else 24)):
+        steps = list(script) if script is not None else [None] * rng.randrange(6, 14 if not thorough else 24)
+        for step in steps:
             k = rng.random()
+            forced_outcome = None
+            if step is not None:
+                kind = step if isinstance(step, str) else step[0]
+                forced_outcome = None if isinstance(step, str) else step[1]
+                k = {"arrive": 0.1, "release": 0.6, "connect": 0.75, "close": 0.85, "tick": 0.95}[kind]
             live = [c for c, ok in conns.items() if ok]
             if k < 0.5 and live:
                 hbh += 1
-                o = rng.choice(["answer", "answer", "none", "raise", "slow:answer", "slow:none", "slow:raise"])
-                c = rng.choice(live)
+                o = forced_outcome or rng.choice(["answer", "answer", "none", "raise", "slow:answer", "slow:none", "slow:raise"])
+                c = live[-1] if step is not None else rng.choice(live)
                 t.request(c, hbh, o)
                 if o.startswith("slow:"):
                     slow.append(hbh)
                 ev = ("arrive", hbh, o, c)
             elif k < 0.7 and slow:
-                h = slow.pop(rng.randrange(len(slow)))
+                h = slow.pop(0 if step is not None else rng.randrange(len(slow)))
                 t.release[h].set()
                 t.sim.run()
                 ev = ("release", h)
@@ -117,7 +140,7 @@ def slot_scenario(seed, thorough):
                 conns[c2] = True
                 ev = ("connect", c2)
             elif k < 0.9 and live:
-                c = rng.choice(live)
+                c = live[-1] if step is not None else rng.choice(live)
                 if rng.random() < 0.5:
                     t.remotes[c].close()
                 else:
@@ -174,11 +197,15 @@ def check(run):
     run.obligations(FILES)
     n = 400 if thorough else 40
     cases, meta = [], []
-    for s in range(n):
+    for s in range(-len(SLOT_CORPUS), n):
         seed = run.seed * 7919 + s
-        limit, trace = slot_scenario(seed, thorough)
+        if s < 0:
+            lim, script = SLOT_CORPUS[s + len(SLOT_CORPUS)]
+            limit, trace = slot_scenario(seed, thorough, script=script, limit=lim)
+        else:
+            limit, trace = slot_scenario(seed, thorough)
         run.count(1, [("slots", seed)])
-        case = {"scenario": f"slots seed {seed}", "limit": limit, "events": [list(e) for e, _ in trace]}
+        case = {"scenario": f"slots seed {seed}" + (" (corpus)" if s < 0 else ""), "limit": limit, "events": [list(e) for e, _ in trace]}
         outcomes = {e[1]: e[2] for e, _ in trace if e[0] == "arrive"}
         arrived_on = {e[1]: e[3] for e, _ in trace if e[0] == "arrive"}
         answered = {}
